@@ -358,7 +358,7 @@ func configLoadPolarity(c *core.Ctx) {
 			continue
 		}
 		okRead := errNilFact(1, func(i ssa.Instruction) bool { return i == ssa.Instruction(get) })
-		stored, good := false, true
+		stored, good, verbatim := false, true, true
 		core.Instrs(f, func(i ssa.Instruction) {
 			st, ok := i.(*ssa.Store)
 			if !ok {
@@ -381,7 +381,31 @@ func configLoadPolarity(c *core.Ctx) {
 			if !core.Dominated(st, okRead) {
 				good = false
 			}
+			// the device id and the structure hash are taken over as they were written: only a change of type ( string(b) ) between
+			// the bytes read and the field. The version is a number and is parsed.
+			if spec.key != "version" {
+				v := st.Val
+				for {
+					if cv, ok := v.(*ssa.Convert); ok {
+						v = cv.X
+						continue
+					}
+					if ct, ok := v.(*ssa.ChangeType); ok {
+						v = ct.X
+						continue
+					}
+					break
+				}
+				if core.CallResult(v, 0, func(ci ssa.Instruction) bool { return ci == ssa.Instruction(get) }) == nil {
+					verbatim = false
+				}
+			}
 		})
+		if !verbatim {
+			c.Bad("config-load-verbatim:"+spec.key, get.Pos(), "the stored %s is changed on the way in (re-cased, trimmed, re-encoded): for a storage whose %s is not already in that form the accessory comes back with another identity — a new key pair is generated under the new name and the old entity stays behind as a phantom pairing — or with a configuration hash that never matches", spec.key, spec.key)
+		} else if spec.key != "version" && stored {
+			c.OK("config-load-verbatim:"+spec.key, get.Pos(), "taken over byte for byte")
+		}
 		n++
 		c.Check(stored && good, "config-load:"+spec.key, get.Pos(), "the stored value is taken over on the branch where reading it succeeded", "the stored "+spec.key+" is not taken over where reading it succeeded (test inverted or assignment missing): the accessory forgets its "+spec.key+" on every restart")
 	}
